@@ -197,6 +197,11 @@ impl RefEval {
     }
 }
 
+thread_local! {
+    /// an ill-formed schema tree noticed while building an operand (reported by the step that used it)
+    static SCHEMA_FAULT: std::cell::RefCell<Option<(String, String)>> = const { std::cell::RefCell::new(None) };
+}
+
 pub struct StepReport {
     pub violations: Vec<Violation>,
     /// the run cannot continue (panic, ill-formed tree, incompatible literal op)
@@ -222,6 +227,8 @@ pub struct Exec {
     /// not end the run (unless the tree is unusable), so that they cannot mask a later violation
     pub focus: Option<String>,
     pub float: bool,
+    /// violations found while building the pool (a constructor that yields an ill-formed tree)
+    pub initial_violations: Vec<Violation>,
     /// LP answers discarded by the last elimination (float regime: effectiveness is then not judged)
     pub last_lps_error: usize,
 }
@@ -279,8 +286,23 @@ impl Exec {
         let mut pool = Vec::new();
         let mut models = Vec::new();
         let mut stats = PwlStats::default();
+        let mut initial_violations = Vec::new();
         for c in &sc.pool {
             let t = guarded(|| c.build()).map_err(|p| format!("constructor panicked: {}", panic_site(&p)))?;
+            // C04 starts at the constructors: their trees must be well-formed already
+            let want_out = match c {
+                Ctor::Schema { schema } => Some(schema.out_dim()),
+                _ => t.terminals().map(|x| x.aff.outdim()).next(),
+            };
+            if let Err((class, detail)) = oracle::check_wellformed(&t, t.in_dim(), want_out, None) {
+                initial_violations.push(Violation {
+                    property: "C04".into(),
+                    class,
+                    site: format!("constructor:{}", c.short()),
+                    step: 0,
+                    detail,
+                });
+            }
             let m = ModelTree::snapshot(&t)?;
             bump(&mut stats.ctor_kinds, c.short(), 1);
             pool.push(t);
@@ -306,6 +328,7 @@ impl Exec {
             selfcheck_pm: 150,
             focus: None,
             float: sc.float_regime,
+            initial_violations,
             last_lps_error: 0,
         })
     }
@@ -357,7 +380,13 @@ impl Exec {
 
     fn other_tree(&self, arg: &TreeArg) -> Result<AffTree<2>, String> {
         match arg {
-            TreeArg::Schema { schema } => guarded(|| schema.build()).map_err(|p| format!("schema constructor panicked: {p}")),
+            TreeArg::Schema { schema } => {
+                let t = guarded(|| schema.build()).map_err(|p| format!("schema constructor panicked: {p}"))?;
+                if let Err((class, detail)) = oracle::check_wellformed(&t, schema.in_dim(), Some(schema.out_dim()), None) {
+                    SCHEMA_FAULT.with(|f| *f.borrow_mut() = Some((class, format!("{}: {detail}", schema.short()))));
+                }
+                Ok(t)
+            }
             TreeArg::Slot { slot } => self.pool.get(*slot).cloned().ok_or_else(|| "bad slot".to_string()),
         }
     }
@@ -957,6 +986,16 @@ impl Exec {
                 }
             }
         }
+        if let Some((class, detail)) = SCHEMA_FAULT.with(|f| f.borrow_mut().take()) {
+            out.violations.push(Violation {
+                property: "C04".into(),
+                class,
+                site: format!("constructor:{}", detail.split(':').next().unwrap_or("schema")),
+                step: self.step_no,
+                detail,
+            });
+            out.stop = true;
+        }
         if !out.stop && self.check {
             self.mirror_probe(&site, &mut out);
         }
@@ -1332,6 +1371,12 @@ pub fn run_scenario(sc: &Scenario, focus: Option<&str>) -> RunResult {
     for f in sc.fault_plan.faults.values() {
         bump(&mut ex.stats.faults_configured, f.family(), 1);
     }
+    violations.extend(ex.initial_violations.clone());
+    if !violations.is_empty() {
+        lpseam::uninstall();
+        ex.stats.runs = 1;
+        return RunResult { scenario: sc.clone(), violations, stats: ex.stats, invalid: false, steps_done: 0 };
+    }
     let mut invalid = false;
     let mut steps_done = 0;
     for (i, op) in sc.history.iter().enumerate() {
@@ -1428,7 +1473,9 @@ pub fn seeded_history_run_traced(focus: &str, run_seed: u64, deep: bool, print: 
         }
     };
     let mut steps_done = 0;
-    for _ in 0..knobs.hist_len {
+    violations.extend(ex.initial_violations.clone());
+    let hist_len = if violations.is_empty() { knobs.hist_len } else { 0 };
+    for _ in 0..hist_len {
         let infos = ex.slot_infos();
         if infos.iter().any(|i| i.out_dim == 0) {
             break;
@@ -1515,6 +1562,7 @@ fn run_suffix(prefix_pool: &[AffTree<2>], prefix_models: &[ModelTree], sc: &Scen
         selfcheck_pm: 0,
         focus: None,
         float: sc.float_regime,
+        initial_violations: Vec::new(),
         last_lps_error: 0,
     };
     for f in sc.fault_plan.faults.values() {
